@@ -2,7 +2,7 @@
    ONLY statements: each theorem is closed by `exact` of a lemma proved elsewhere and followed by Print Assumptions. *)
 From Coq Require Import ZArith NArith List Bool Lia Permutation FMapPositive.
 Import ListNotations.
-Require Import Base Builtins SeqProofs Strings SliceReal Interp Machine Spec Refine2 RunG SeqSpec.
+Require Import Base Builtins SeqProofs Strings SliceReal Float Interp Machine Spec Refine2 RunG SeqLink SeqSpec.
 
 Theorem join_split sep s :
   sep <> [] -> joinN sep (split_on (S (length s)) sep s []) = s.
@@ -47,6 +47,80 @@ Theorem slice_list_is_positions {A} (d:A) (l:list A) start stop step :
   /\ Forall (fun i => 0 <= i < Z.of_nat (length l)) (slice_indices (Z.of_nat (length l)) start stop step).
 Proof. exact (SliceReal.slice_list_is_positions d l start stop step). Qed.
 Print Assumptions slice_list_is_positions.
+
+(* the built-ins on evaluated arguments ARE these list functions, for lists, strings (code points) and byte strings *)
+Theorem len_of_list (rec : list positive -> heap -> world -> task -> out) sp l ip h w :
+  runG rec value ip h w (bi_len sp [VList l]) = DoneG h w (inl (VInt (Z.of_nat (length l)))) 0.
+Proof. exact (SeqLink.len_of_list rec sp l ip h w). Qed.
+Print Assumptions len_of_list.
+
+(* a string's length counts code points *)
+Theorem len_of_string (rec : list positive -> heap -> world -> task -> out) sp s ip h w :
+  runG rec value ip h w (bi_len sp [VStr s]) = DoneG h w (inl (VInt (Z.of_nat (length s)))) 0.
+Proof. exact (SeqLink.len_of_string rec sp s ip h w). Qed.
+Print Assumptions len_of_string.
+
+Theorem len_of_bytes (rec : list positive -> heap -> world -> task -> out) sp s ip h w :
+  runG rec value ip h w (bi_len sp [VBytes s]) = DoneG h w (inl (VInt (Z.of_nat (length s)))) 0.
+Proof. exact (SeqLink.len_of_bytes rec sp s ip h w). Qed.
+Print Assumptions len_of_bytes.
+
+Theorem slice_of_list (rec : list positive -> heap -> world -> task -> out) sp l a b c ip h w :
+  c <> 0 -> runG rec value ip h w (bi_slice sp [VList l; VInt a; VInt b; VInt c]) = DoneG h w (inl (VList (slice_list l a b c))) 0.
+Proof. exact (SeqLink.slice_of_list rec sp l a b c ip h w). Qed.
+Print Assumptions slice_of_list.
+
+Theorem slice_of_string (rec : list positive -> heap -> world -> task -> out) sp s a b c ip h w :
+  c <> 0 -> runG rec value ip h w (bi_slice sp [VStr s; VInt a; VInt b; VInt c]) = DoneG h w (inl (VStr (slice_list s a b c))) 0.
+Proof. exact (SeqLink.slice_of_string rec sp s a b c ip h w). Qed.
+Print Assumptions slice_of_string.
+
+Theorem slice_of_bytes (rec : list positive -> heap -> world -> task -> out) sp s a b c ip h w :
+  c <> 0 -> runG rec value ip h w (bi_slice sp [VBytes s; VInt a; VInt b; VInt c]) = DoneG h w (inl (VBytes (slice_list s a b c))) 0.
+Proof. exact (SeqLink.slice_of_bytes rec sp s a b c ip h w). Qed.
+Print Assumptions slice_of_bytes.
+
+Theorem slice_defaults (rec : list positive -> heap -> world -> task -> out) sp l a b ip h w :
+  runG rec value ip h w (bi_slice sp [VList l; VInt a]) = DoneG h w (inl (VList (slice_list l a (Z.of_nat (length l)) 1))) 0 /\
+  runG rec value ip h w (bi_slice sp [VList l; VInt a; VInt b]) = DoneG h w (inl (VList (slice_list l a b 1))) 0.
+Proof. exact (SeqLink.slice_defaults rec sp l a b ip h w). Qed.
+Print Assumptions slice_defaults.
+
+Theorem slice_step_zero (rec : list positive -> heap -> world -> task -> out) sp l a b ip h w :
+  runG rec value ip h w (bi_slice sp [VList l; VInt a; VInt b; VInt 0]) = DoneG h w (inr (mkerr c_value sp)) 0.
+Proof. exact (SeqLink.slice_step_zero rec sp l a b ip h w). Qed.
+Print Assumptions slice_step_zero.
+
+Theorem concat_lists (rec : list positive -> heap -> world -> task -> out) sp l1 l2 ip h w :
+  runG rec value ip h w (bi_add sp [VList l1; VList l2]) = DoneG h w (inl (VList (l1 ++ l2))) 0.
+Proof. exact (SeqLink.concat_lists rec sp l1 l2 ip h w). Qed.
+Print Assumptions concat_lists.
+
+Theorem concat_strings (rec : list positive -> heap -> world -> task -> out) sp s1 s2 ip h w :
+  runG rec value ip h w (bi_add sp [VStr s1; VStr s2]) = DoneG h w (inl (VStr (s1 ++ s2))) 0.
+Proof. exact (SeqLink.concat_strings rec sp s1 s2 ip h w). Qed.
+Print Assumptions concat_strings.
+
+Theorem concat_bytes (rec : list positive -> heap -> world -> task -> out) sp s1 s2 ip h w :
+  runG rec value ip h w (bi_add sp [VBytes s1; VBytes s2]) = DoneG h w (inl (VBytes (s1 ++ s2))) 0.
+Proof. exact (SeqLink.concat_bytes rec sp s1 s2 ip h w). Qed.
+Print Assumptions concat_bytes.
+
+Theorem split_of_string (rec : list positive -> heap -> world -> task -> out) sp s d0 d ip h w :
+  runG rec value ip h w (bi_split sp [VStr s; VStr (d0 :: d)]) = DoneG h w (inl (VList (map VStr (split_on (S (length s)) (d0 :: d) s [])))) 0.
+Proof. exact (SeqLink.split_of_string rec sp s d0 d ip h w). Qed.
+Print Assumptions split_of_string.
+
+Theorem split_into_characters (rec : list positive -> heap -> world -> task -> out) sp s ip h w :
+  runG rec value ip h w (bi_split sp [VStr s]) = DoneG h w (inl (VList (map VStr (map (fun c => [c]) s)))) 0.
+Proof. exact (SeqLink.split_into_characters rec sp s ip h w). Qed.
+Print Assumptions split_into_characters.
+
+(* so join_split is a law of ㅂㄹ / ㄱㅁ themselves *)
+Theorem join_of_strings (rec : list positive -> heap -> world -> task -> out) sp p ps d ip h w :
+  runG rec value ip h w (bi_join sp [VList (map VStr (p :: ps)); VStr d]) = DoneG h w (inl (VStr (joinN d (p :: ps)))) 0.
+Proof. exact (SeqLink.join_of_strings rec sp p ps d ip h w). Qed.
+Print Assumptions join_of_strings.
 
 (* map applies the function once per element and collects the results in list order (for a callee that is a state-free function app) *)
 Theorem map_in_order (rec : list positive -> heap -> world -> task -> out) (f : evalr) (sp : span) (app : list value -> value) (PURE : forall ip h w xs, rec ip h w (TComp (proc_body (PApply f sp xs))) = Done h w (inl (app xs)) 0)  :
